@@ -207,6 +207,8 @@ type Spec struct {
 	IDTokenKey      interface{} // nil => RSAKey(0)
 	RealBcrypt      bool
 	SecretClientsOK bool
+	// Minimal: a default-constructed Config (only the global secret is set), as in fosite's README quick start.
+	Minimal bool
 }
 
 type World struct {
@@ -268,31 +270,36 @@ func NewWorld(sp Spec) *World {
 		// never wait between device polls in-process
 		DeviceAuthTokenPollingInterval: time.Second,
 	}
+	if sp.Minimal {
+		cfg = &fosite.Config{GlobalSecret: []byte("global-secret-0123456789-0123456789-abcdef")}
+	}
 	if sp.RealBcrypt {
 		cfg.ClientSecretsHasher = &fosite.BCrypt{Config: &fosite.Config{HashCost: 4}}
 	}
-	switch sp.ScopeStrategy {
-	case "hierarchic":
-		cfg.ScopeStrategy = fosite.HierarchicScopeStrategy
-	case "exact":
-		cfg.ScopeStrategy = fosite.ExactScopeStrategy
-	default:
-		cfg.ScopeStrategy = fosite.WildcardScopeStrategy
+	if !sp.Minimal {
+		switch sp.ScopeStrategy {
+		case "hierarchic":
+			cfg.ScopeStrategy = fosite.HierarchicScopeStrategy
+		case "exact":
+			cfg.ScopeStrategy = fosite.ExactScopeStrategy
+		default:
+			cfg.ScopeStrategy = fosite.WildcardScopeStrategy
+		}
+		if sp.AudienceExact {
+			cfg.AudienceMatchingStrategy = fosite.ExactAudienceMatchingStrategy
+		} else {
+			cfg.AudienceMatchingStrategy = fosite.DefaultAudienceMatchingStrategy
+		}
+		if sp.RefreshScopes != nil {
+			cfg.RefreshTokenScopes = sp.RefreshScopes
+		}
+		cfg.JWKSFetcherStrategy = stubFetcher{w}
+		hc := retryablehttp.NewClient()
+		hc.RetryMax = 0
+		hc.Logger = nil
+		hc.HTTPClient = &http.Client{Transport: docTransport{w}}
+		cfg.HTTPClient = hc
 	}
-	if sp.AudienceExact {
-		cfg.AudienceMatchingStrategy = fosite.ExactAudienceMatchingStrategy
-	} else {
-		cfg.AudienceMatchingStrategy = fosite.DefaultAudienceMatchingStrategy
-	}
-	if sp.RefreshScopes != nil {
-		cfg.RefreshTokenScopes = sp.RefreshScopes
-	}
-	cfg.JWKSFetcherStrategy = stubFetcher{w}
-	hc := retryablehttp.NewClient()
-	hc.RetryMax = 0
-	hc.Logger = nil
-	hc.HTTPClient = &http.Client{Transport: docTransport{w}}
-	cfg.HTTPClient = hc
 	if sp.Mutate != nil {
 		sp.Mutate(cfg)
 	}
@@ -876,7 +883,7 @@ func (w *World) DeviceAuth(form url.Values, a Auth, c Consent) *DeviceResult {
 // openid is granted, the OpenID Connect session is stored under the
 // device-code signature (as integration/authorize_device_grant_request_test.go
 // does). Returns false when the user code is unknown or expired.
-func (w *World) DeviceDecide(userCode string, accept bool, c Consent) bool {
+func (w *World) DeviceDecide(userCode string, accept bool, c Consent, deviceCode ...string) bool {
 	ctx := context.Background()
 	usig, err := w.DevStr.UserCodeSignature(ctx, userCode)
 	if err != nil {
@@ -950,6 +957,13 @@ func (w *World) DeviceDecide(userCode string, accept bool, c Consent) bool {
 	}
 	mutate(dr)
 	if accept && dr.GetGrantedScopes().Has("openid") {
+		if len(deviceCode) > 0 {
+			// the integrator remembers the device code (no unsynchronised access to the store's map)
+			if dsig, err := w.DevStr.DeviceCodeSignature(ctx, deviceCode[0]); err == nil {
+				_ = w.Mem.CreateOpenIDConnectSession(ctx, dsig, dr)
+			}
+			return true
+		}
 		// find the device-code signature: the reference store maps both signatures to the same request
 		for k, v := range w.Mem.DeviceAuths {
 			if v == d && k != usig {
